@@ -14,7 +14,7 @@ import os
 import subprocess
 import sys
 
-from .. import boot, run, diff, gen
+from .. import boot, run, diff, gen, progcheck
 from ..cref import parse_program, CParseError, show
 from ..cref import canon
 
@@ -309,6 +309,44 @@ def determinism(ctx, texts):
         shutil.rmtree(d, ignore_errors=True)
 
 
+# texts that differ only in white space but not in their tokens (second member: the glued spelling)
+TWINS = [("{ RdV = - -RsV; }", "{ RdV = --RsV; }"), ("{ RdV = + +RsV; }", "{ RdV = ++RsV; }"),
+         ("{ RdV = RxV++ + RtV; }", "{ RdV = RxV + ++RtV; }"), ("{ RdV = RxV-- - RtV; }", "{ RdV = RxV - --RtV; }"),
+         ("{ RdV = RsV ? P0 : 1; }", "{ RdV = RsV ? P0:1; }"), ("{ RdV = RsV > > 1; }", "{ RdV = RsV >> 1; }"),
+         ("{ RdV = RsV < < 1; }", "{ RdV = RsV << 1; }"), ("{ RdV = RsV & & RtV; }", "{ RdV = RsV && RtV; }"),
+         ("{ RdV = RsV | | RtV; }", "{ RdV = RsV || RtV; }"), ("{ RxV + = 1; }", "{ RxV += 1; }"), ("{ RdV = RsV = = RtV; }", "{ RdV = RsV == RtV; }"),
+         ("{ RdV = RsV ! = RtV; }", "{ RdV = RsV != RtV; }"), ("{ RdV = RsV < = RtV; }", "{ RdV = RsV <= RtV; }"),
+         ("{ RxV << = 1; }", "{ RxV <<= 1; }"), ("{ RdV = 1 0; }", "{ RdV = 10; }"), ("{ RdV = 0 x10; }", "{ RdV = 0x10; }"),
+         ("{ R dV = 1; }", "{ RdV = 1; }"), ("{ RdV = 1 U; }", "{ RdV = 1U; }"), ("{ RdV = RsV - - 1; }", "{ RdV = RsV -- 1; }"),
+         ("{ int32_t x = 1; RdV = x; }", "{ int32_tx = 1; RdV = x; }"), ("{ RdV = RsV; ReV = 1; }", "{ RdV = RsV;ReV=1; }"),
+         ("{ if (RsV) RdV = 1; else RdV = 2; }", "{ if(RsV)RdV=1;else RdV=2; }"), ("{ RdV = sizeof (RsV); }", "{ RdV = sizeof(RsV); }")]
+
+
+def twins_worker(pairs):
+    """(E) the public Compiler entry point: whatever a Compiler object compiled before, a text yields what a brand-new
+    Compiler yields for it - in particular for texts that only differ in white space from an earlier one"""
+    from .c14 import normalise
+    p = run.Part()
+
+    def result(c, t):
+        st, il = progcheck.try_compile(c, t)
+        return (st, normalise(il)) if st == "ok" else (st, il.split(":")[0])
+
+    for a, b in pairs:
+        base = {t: result(boot.new_compiler(), t) for t in (a, b)}
+        for order in ((a, b), (b, a)):
+            c = boot.new_compiler()
+            for t in order:
+                p.ev()
+                got = result(c, t)
+                p.nontriv(("twin", order, t))
+                if got != base[t]:
+                    p.failure("C17 result depends on a white-space twin compiled before on the same Compiler",
+                              {"text": t, "compiled_before": order[0], "got": got, "fresh_compiler": base[t]})
+        p.count("twins:" + ("same result" if base[a] == base[b] else "different tokens"))
+    return p.d
+
+
 def run_check(ctx):
     ctx.rule = ("(A) corpus behaviours (thorough: all; quick: 200 stratified) (B) table of operator pairs/casts/else/look-alike tokens "
                 "(C) Hypothesis ASTs printed with minimal + redundant parentheses and varied whitespace (D) 5 processes with different "
@@ -337,6 +375,7 @@ def run_check(ctx):
            "{ if (RsV) if (RtV) RdV = 1; else RdV = 2; }", "{ RdV = RsV&RtV&&RuV; }"]
     det += [boot.corpus()[n_][0] for n_ in sel[:12] if len(boot.corpus()[n_][0]) < 300]
     determinism(ctx, det)
+    run.run_sharded(ctx, twins_worker, [(TWINS[i::12],) for i in range(12)], procs=12)
 
 
 def replay(rep):
